@@ -2115,7 +2115,7 @@ namespace detail {
                     ec = jmespath_errc::invalid_type;
                     return context.null_value();
                 }
-                if (arg0.size() <= 1)
+                if (arg0.empty())
                 {
                     return arg0;
                 }
@@ -2181,12 +2181,21 @@ namespace detail {
                     ec = jmespath_errc::invalid_type;
                     return context.null_value();
                 }
-                if (arg0.size() <= 1)
+                if (arg0.empty())
                 {
                     return arg0;
                 }
 
                 const auto& expr = args[1].expression();
+                if (arg0.size() == 1)
+                {
+                    reference key = expr.evaluate(arg0.at(0), context, ec);
+                    if (!ec && !(key.is_number() || key.is_string()))
+                    {
+                        ec = jmespath_errc::invalid_type;
+                    }
+                    return ec ? context.null_value() : arg0;
+                }
 
                 auto result = context.create_json(json_array_arg);
                 result->reserve(arg0.size());
